@@ -1139,6 +1139,7 @@ def run(model, rep):
     rule_fresh_records(model, rep)
     rule_hex_case(model, rep, table)
     rule_empty_checksum(model, rep)
+    rule_scrypt7_separator(model, rep)
 
 
 CACHERS = {"lru_cache", "cache", "memoize_single_value", "cached_property", "memoized_property"}
@@ -1226,3 +1227,16 @@ def rule_empty_checksum(model, rep):
         rets = [ast.unparse(r.value) for r in walk_no_nested(fn) if isinstance(r, ast.Return) and r.value is not None and any(isinstance(x, ast.Name) and x.id == "chk" for x in ast.walk(r.value))]
         rep.check(rets == [want], R, f"{UH}:{q}", "; ".join(rets), "the digest field is returned as `chk or None`",
                   witness="sha1_crypt.genhash(pw, '$sha1$10$salt$') / pbkdf2_sha256.from_string('$pbkdf2-sha256$10$c2FsdA$') raise: the empty digest reaches the size check instead of meaning 'no digest'")
+
+
+def rule_scrypt7_separator(model, rep):
+    """`$7$` writes the salt as it is, directly in front of the `$` that separates it from the digest, and the parser splits there: a salt
+    containing `$` cannot be written (the renderer refuses it, as it refuses non-ASCII salts)"""
+    R = "C07.g-regex-sizes"
+    SC = "passlib.handlers.scrypt"
+    fn = model.func(SC, "scrypt.to_string")
+    guards = [g for g in walk_no_nested(fn) if isinstance(g, ast.If) and g.body and isinstance(g.body[-1], ast.Raise) and isinstance(g.test, ast.Compare)
+              and any(isinstance(o, ast.In) for o in g.test.ops) and ast.unparse(g.test.left) in ("b'$'", "_BDOLLAR", "b\"$\"") and "salt" in ast.unparse(g.test.comparators[0])]
+    rep.check(bool(guards), R, f"{SC}:scrypt.to_string $7$ salt separator", ast.unparse(guards[0].test) if guards else "salt written without a test for b'$'",
+              "a `$7$` salt containing the field separator is refused when the string is rendered",
+              witness="scrypt.using(ident='$7$', rounds=1, salt=b'ab$cd').hash('password') returns '$7$/6..../....ab$cd$<digest>', which scrypt.verify() / from_string() refuse as malformed")
